@@ -8,6 +8,9 @@ import Operon.Model.Wiring
   handler N raise | retnone | ret p:raw:k p:typed:dt:il:k …        register_module with a scripted handler
   ext M P raw k | ext M P typed dt il k     external_inputs[M][P] = …
   extmod M                                  external_inputs.setdefault(M, {})
+  callable KIND                             the handlers registered from here on are callables of that kind (func, lambda,
+                                            method, partial, obj; with a truth value of their own that is false: boolfalse,
+                                            len0, collector, listsub, dictsub; boolraises); the model is indifferent
   names S                                   (first line) naming scheme used by the harness for module / port names
   exec E                                    execute(external_inputs or None, enforce_static_checks=E); E = d: default
   handler2 N … / exec2 E                    the same on a SECOND DiagramExecutor built on the same diagram
@@ -217,6 +220,12 @@ def portEdit (st : DSt) (op n : String) (e : SpecEdit) : DSt × String :=
 
 def step (st : DSt) (toks : List String) : DSt × String :=
   match toks with
+  | ["callable", k] =>
+    -- what kind of callable OBJECT the harness registers from here on (function, lambda, bound method, partial, callable
+    -- objects, also ones whose own truth value is false): `execute` asks the handler table `is not None`, nothing else,
+    -- so the model has nothing to look at
+    if ["func", "lambda", "method", "partial", "obj", "boolfalse", "len0", "collector", "listsub", "dictsub",
+        "boolraises"].contains k then (st, "ok ## callable") else (st, "bad-op")
   | ["names", _] => (st, "ok ## names")   -- how the harness spells module / port names in Python; numbers here
   | "mod" :: n :: rest =>
     let (ins, outs, cs) := sections rest
